@@ -143,9 +143,9 @@ def _mapper_calls(ctx, fi, mapper):
     return out
 
 
-def _reachable(ctx, mapper):
+def _reachable(ctx, mapper, queries=None):
     seen, todo = {}, []
-    for q in PUBLIC_QUERIES:
+    for q in (queries or PUBLIC_QUERIES):
         f = ctx.prog.find_method(mapper, q)
         if f is None:
             raise AnalysisError(f'anchor vanished: {N.MAPPER}.{q}')
@@ -263,7 +263,8 @@ def r3_deep_lookup(ctx):
 # --------------------------------------------------------------------------- R4
 def r4_recursion(ctx):
     mapper = ctx.prog.cls(N.MAPPER)
-    funcs = _reachable(ctx, mapper)
+    # the text rendering of the tree (`tree`) is not a category query: helpers only it reaches are not held to the rule
+    funcs = _reachable(ctx, mapper, [q for q in PUBLIC_QUERIES if q != 'tree'])
     n = 0
     for f in funcs.values():
         rec_calls = [c for c, t in _mapper_calls(ctx, f, mapper) if t is f]
@@ -452,6 +453,32 @@ def _validator_table(ctx, f, none_value):
     return res
 
 
+def _empty_tree_has_no_nodes(ctx, nd_):
+    """_nodes(tree) starts from the keys of the tree (or from nothing) and adds to that only inside loops / comprehensions over
+    the entries of the tree: for an empty tree the result is empty."""
+    t = nd_.params[1]
+    body = docstring_free(nd_.body)
+    rets = [n for n in walk_local(nd_.node) if isinstance(n, ast.Return)]
+    if len(rets) != 1 or rets[0].value is None:
+        return False
+    rv = rets[0].value
+    over_tree = (f'{t}.values()', f'{t}.items()', f'{t}.keys()', t)
+    if isinstance(rv, ast.Name):
+        inits = [n for n in body if isinstance(n, ast.Assign) and len(n.targets) == 1 and F.is_name(n.targets[0], rv.id)]
+        if len(inits) != 1 or src(inits[0].value) not in (f'set({t}.keys())', f'set({t})', 'set()'):
+            return False
+        for n in body:
+            if n is inits[0] or n is rets[0]:
+                continue
+            if not (isinstance(n, ast.For) and src(n.iter) in over_tree):
+                return False
+        return True
+    # one expression: a set built from the keys and from unions over the entries
+    names = {src(g.iter) for n in ast.walk(rv) if isinstance(n, ast.comprehension) for g in [n]}
+    return bool(names) and names <= set(over_tree) and not any(isinstance(n, ast.Constant) and n.value not in (None,) and not isinstance(n.value, bool)
+                                                              for n in ast.walk(rv))
+
+
 def r5_selection(ctx):
     mapper = ctx.prog.cls(N.MAPPER)
     valid = ctx.prog.func(f'{N.MAPPER}.valid')
@@ -539,7 +566,15 @@ def r5_selection(ctx):
             ok = False
             continue
         absent = G.evaluate(cond, {G.atoms_of(cond)[0]: True})
-        ok = ok and (v == 'set()' if absent else v == f'cls._nodes({loc_})')
+        present_forms = {f'cls._nodes({loc_})'}
+        nd_ = ctx.prog.func(f'{N.MAPPER}._nodes')
+        one = F.expand_call(ctx, ast.parse(f'cls._nodes({loc_})', mode='eval').body, nodes)
+        if one is not None:         # _nodes written as one expression: the expression itself is the same set
+            present_forms.add(src(one).replace('tree=', '').replace('parent=', ''))
+        absent_forms = {'set()', 'frozenset()'}
+        if v == 'cls._nodes({})' and _empty_tree_has_no_nodes(ctx, nd_):
+            absent_forms.add(v)     # the node set of an empty tree is empty (read from _nodes itself)
+        ok = ok and (v in absent_forms if absent else v in present_forms)
     ok = ok and len(rets) == 2
     ctx.check(ok, 'R5', nodes.loc, nodes.qualname, 'nodes-via-deep-locator',
               'nodes(c) = _nodes(_find_subtree(root, c)) (empty when absent)',
